@@ -4,7 +4,7 @@
    the double.  [mismatches T cases] lists the cases on which the model disagrees, T being the sentinel
    texts read from the linked core/da package in the same run. *)
 From Coq Require Import String Ascii NArith List Bool.
-From Verif Require Import Model.Proxy.
+From Verif Require Import Model.Proxy Model.ProxyMem.
 Import ListNotations.
 Open Scope string_scope.
 Open Scope list_scope.
@@ -55,13 +55,24 @@ Definition interp_get (ge : option (N * err)) : getfn :=
              | _, _ => BOk ids
              end.
 
+(* CSeq: a sequence of submissions that re-use the caller's slice (block/submitter.go submitToDA): before each
+   attempt the caller drops [skip] leading blobs of the slice it used last (0 = the very same slice), the
+   backing DA answers as [r] says *)
 Inductive call :=
   | CSubmit (sizes : list N) (max : N) (r : sresp) (cancelled : bool)
-  | CRetrieve (height : N) (g : gresult) (ge : option (N * err)) (cancelled : bool).
+  | CRetrieve (height : N) (g : gresult) (ge : option (N * err)) (cancelled : bool)
+  | CSeq (sizes : list N) (max : N) (attempts : list (nat * sresp * bool)).
+
+(* one attempt of a sequence as observed: the helper's result; the blobs that reached the double, each by the
+   position (in the caller's original batch) of the blob it is byte-for-byte equal to; the caller's whole
+   array after the call, slot by slot, likewise *)
+Record sstep := mk_sstep { ss_code : status; ss_ids : list N; ss_count : N; ss_height : N;
+                           ss_log : list (list N); ss_mem : list N }.
 
 Inductive obs :=
   | OSub (code : status) (ids : list N) (count : N) (height : N)
-  | ORet (code : status) (ids : list N) (blobs : list N) (ts : N) (height : N).
+  | ORet (code : status) (ids : list N) (blobs : list N) (ts : N) (height : N)
+  | OSeq (steps : list sstep).
 
 Record ccase := {
   c_call : call;
@@ -69,8 +80,10 @@ Record ccase := {
   c_dlog : list (list N); c_plog : list (list N);      (* submit calls that reached the double (blob sizes) *)
   c_dcalls : N * N; c_pcalls : N * N;                  (* GetIDs, Get calls that reached the double *)
   c_indomain : bool;                                   (* the Go oracle's domain flag for a scripted submit error *)
-  c_dtext : option string; c_ptext : option string     (* err.Error() of the error the node's helper was handed by the
+  c_dtext : option string; c_ptext : option string;    (* err.Error() of the error the node's helper was handed by the
                                                           DA it called (directly / through the client), None = no error *)
+  c_dmem : list N; c_pmem : list N                     (* CSubmit: the caller's array after the call: slot j holds (byte for
+                                                          byte) the blob that was created at position ... *)
 }.
 
 Definition status_eqb (a b : status) : bool :=
@@ -116,8 +129,32 @@ Definition otext_eqb (a b : option string) : bool :=
   | _, _ => false
   end.
 
+(* ---- sequences ---------------------------------------------------------------------------------------------------- *)
+Definition interp_attempts (T : table) (l : list (nat * sresp * bool)) : list attempt :=
+  map (fun x => mk_attempt (fst (fst x)) (interp_s T (snd (fst x))) (snd x)) l.
+
+Definition step_agrees (m : step_out) (o : sstep) : bool :=
+  let so := fst (fst m) in
+  status_eqb (so_code so) (ss_code o) && listN_eqb (so_ids so) (ss_ids o) && (so_count so =? ss_count o)%N
+  && (so_height so =? ss_height o)%N
+  && log_eqb (map (map bid) (snd (fst m))) (ss_log o)
+  && listN_eqb (map bid (snd m)) (ss_mem o).
+
+Fixpoint steps_agree (ms : list step_out) (os : list sstep) : bool :=
+  match ms, os with
+  | [], [] => true
+  | m :: ms', o :: os' => step_agrees m o && steps_agree ms' os'
+  | _, _ => false
+  end.
+
+Definition seq_agrees (ms : list step_out) (o : obs) : bool :=
+  match o with OSeq steps => steps_agree ms steps | _ => false end.
+
 (* 1 = direct result, 2 = proxied result, 3 = direct backend log, 4 = proxied backend log, 5 = domain flag,
-   6 = GetIDs call counts, 7 = text of the error handed to the helper in-process, 8 = ... behind the proxy *)
+   6 = GetIDs call counts, 7 = text of the error handed to the helper in-process, 8 = ... behind the proxy,
+   10 = the caller's array after the in-process call, 11 = ... after the call through the client (both from the
+   memory model, Model/ProxyMem.v), 12 = a sequence on one slice, in-process, 13 = ... through the client (results,
+   blobs that reached the double, the caller's array after every attempt) *)
 Definition check_case (T : table) (c : ccase) : list N :=
   match c_call c with
   | CSubmit sizes max r cancelled =>
@@ -129,7 +166,15 @@ Definition check_case (T : table) (c : ccase) : list N :=
       (if log_eqb (snd p) (c_plog c) then [] else [4%N]) ++
       (match r with SErr e => if Bool.eqb (wfb T e) (c_indomain c) then [] else [5%N] | _ => [] end) ++
       (if otext_eqb (answer_text (direct_answer T (interp_s T r) cancelled sizes)) (c_dtext c) then [] else [7%N]) ++
-      (if otext_eqb (answer_text (proxied_answer T max (interp_s T r) cancelled sizes)) (c_ptext c) then [] else [8%N])
+      (if otext_eqb (answer_text (proxied_answer T max (interp_s T r) cancelled sizes)) (c_ptext c) then [] else [8%N]) ++
+      (if listN_eqb (map bid (arr (snd (direct_submit_mem T (interp_s T r) cancelled (caller_heap sizes) (caller_slice sizes))) 0)) (c_dmem c)
+       then [] else [10%N]) ++
+      (if listN_eqb (map bid (arr (snd (proxied_submit_mem T max (interp_s T r) cancelled (caller_heap sizes) (caller_slice sizes))) 0)) (c_pmem c)
+       then [] else [11%N])
+  | CSeq sizes max attempts =>
+      let l := interp_attempts T attempts in
+      (if seq_agrees (direct_attempts T (caller_heap sizes) (caller_slice sizes) l) (c_direct c) then [] else [12%N]) ++
+      (if seq_agrees (proxied_attempts T max (caller_heap sizes) (caller_slice sizes) l) (c_proxied c) then [] else [13%N])
   | CRetrieve height g ge cancelled =>
       let one := if cancelled then 0%N else 1%N in
       (if robs_agrees height (snd (c_dcalls c)) (direct_retrieve T g (interp_get ge) cancelled) (c_direct c) then [] else [1%N]) ++
